@@ -52,8 +52,8 @@ INTEGRANDS = {
     ("scalar", "scalar"): ["mass", "mass_nonsym", "laplace", "advect0",
                            "advect_last", "xweighted", "hweighted",
                            "coef_mass", "coef_grad", "scalar_param",
-                           "complex_mass"],
-    ("vector", "vector"): ["vec_mass", "vec_elastic"],
+                           "complex_mass", "inplace_x", "inplace_unpack"],
+    ("vector", "vector"): ["vec_mass", "vec_elastic", "inplace_vec"],
     ("vector", "scalar"): ["vec_div_scalar"],
     ("scalar", "vector"): ["scalar_div_vec"],
     ("hdiv", "hdiv"): ["hdiv_mass"],
@@ -73,7 +73,7 @@ REUSE_SEQS = [[(0, 1), (1, 0)], [(1, 0), (0, 1)], [(0, 1), (1, 0), (0, 1)],
               [(0, 0), (0, 1), (1, 0), (1, 1)], [(0, 1), (1, 1), (1, 0)],
               [(1, 1), (0, 1), (1, 0), (0, 0)]]
 REUSE_INTEGRANDS = ["mass", "mass_nonsym", "laplace", "advect0", "xweighted",
-                    "hweighted", "scalar_param", "complex_mass"]
+                    "hweighted", "scalar_param", "complex_mass", "inplace_x"]
 POLICIES = ["random", "sticky", "pct", "starve-main", "main-first",
             "starve-worker", "roundrobin", "kernel-coarse", "reverse"]
 
